@@ -161,7 +161,7 @@ def xmatch(
         lookup_value_type, lookup_value, lookup_array_index, lookup_array_type,
         lookup_array, match_type=1
 ):
-    res = [Error.errors['#N/A']]
+    res = [Error.errors['#N/A'], False]
     b = lookup_value_type == lookup_array_type
     index = lookup_array_index[b]
     array = lookup_array[b]
@@ -169,16 +169,20 @@ def xmatch(
     if match_type > 0:
         def check(j, x, val, r):
             if x <= val:
-                r[0] = j
-                return x == val and j > 1
+                if r[1] and x != val:  # Past the run of equal elements.
+                    return True
+                r[0], r[1] = j, x == val and j > 1
+                return False
             return j > 1
 
     elif match_type < 0:
         def check(j, x, val, r):
             if x < val:
                 return True
-            r[0] = j
-            return v == val
+            if r[1] and x != val:  # Past the run of equal elements.
+                return True
+            r[0], r[1] = j, x == val
+            return False
 
     else:
         if lookup_value_type == 1 and any(v in lookup_value for v in '*~?'):
